@@ -185,7 +185,7 @@ Proof.
   - exfalso. apply Hne. destruct l2; [|discriminate]. destruct l1; [reflexivity|discriminate].
   - destruct (unlink_head L R e b t Hnd2 Hc) as (HL & HR & Hc').
     split.
-    + rewrite HL. intros H. inversion Hnd2 as [|? ? Hn _]; subst. apply Hn. rewrite <- H. apply last_cons_In.
+    + rewrite HL. intros H. apply NoDup_cons_iff in Hnd2 as [Hn _]. apply Hn. rewrite <- H at 1. apply last_cons_In.
     + rewrite <- E in Hc'. apply cyc_rot in Hc'. exact Hc'.
 Qed.
 
@@ -200,18 +200,63 @@ Proof.
   assert (Hzin : In z (h :: t)) by (rewrite Hz; apply last_cons_In).
   assert (Hze : z <> e) by (intros ->; contradiction).
   assert (Hhe : h <> e) by (intros ->; apply Hne; now left).
-  cbn [cyc] in *. apply path_app in Hc. destruct Hc as [Hp Hl]. rewrite <- Hz in Hl.
-  cbn in Hl. destruct Hl as [[Hl1 Hl2] _].
-  rewrite <- app_assoc. apply path_app. rewrite <- Hz. split.
+  cbn [cyc] in *. apply path_app in Hc. destruct Hc as [Hp Hl].
+  assert (Hzt : last t h = z) by (rewrite Hz; destruct t; reflexivity).
+  rewrite Hzt in Hl. cbn in Hl. destruct Hl as [[Hl1 Hl2] _].
+  rewrite <- app_assoc. apply path_app. rewrite Hzt. split.
   - eapply path_ext; [| |exact Hp].
     + intros x Hx. rewrite !upd_other; [reflexivity| |].
-      * intros ->. apply Hne. apply removelast_cons_In. exact Hx.
       * intros ->. rewrite Hz in Hx. exact (NoDup_last_not_removelast _ _ Hnd Hx).
+      * intros ->. apply Hne. apply removelast_cons_In. exact Hx.
     + intros x Hx. rewrite !upd_other; [reflexivity| |].
-      * intros ->. inversion Hnd; contradiction.
       * intros ->. apply Hne. now right.
+      * intros ->. apply NoDup_cons_iff in Hnd as [Hh _]. contradiction.
   - cbn. unfold lnk. split; [|split; [|exact I]].
     + rewrite (upd_other _ e h z Hze), upd_same.
       rewrite (upd_other _ h e e (not_eq_sym Hhe)), upd_same. tauto.
     + rewrite !upd_same. tauto.
+Qed.
+
+Lemma cyc_neighbours L R l1 e l2 :
+  cyc L R (l1 ++ e :: l2) -> In (L e) (l1 ++ e :: l2) /\ In (R e) (l1 ++ e :: l2).
+Proof.
+  intros Hc. apply cyc_rot in Hc. cbn [app] in Hc.
+  assert (Hperm : forall x, In x (e :: l2 ++ l1) -> In x (l1 ++ e :: l2)).
+  { intros x [->|Hx]; [apply in_or_app; right; now left|].
+    apply in_app_or in Hx. apply in_or_app. destruct Hx; [right; now right|now left]. }
+  split; apply Hperm.
+  - rewrite (cyc_head_left _ _ _ _ Hc). apply last_cons_In.
+  - destruct (l2 ++ l1) as [|b t] eqn:E.
+    + apply cyc_single in Hc. destruct Hc as [-> _]. now left.
+    + rewrite (cyc_head_right _ _ _ _ _ Hc). right. now left.
+Qed.
+
+Lemma remove_nat_split e t1 t2 : ~ In e t1 -> remove_nat e (t1 ++ e :: t2) = t1 ++ t2.
+Proof.
+  induction t1 as [|a t1 IH]; cbn; intros H.
+  - now rewrite Nat.eqb_refl.
+  - destruct (Nat.eqb_spec e a) as [->|_]; [tauto|]. f_equal. apply IH. tauto.
+Qed.
+
+Lemma remove_nat_In e l x : In x (remove_nat e l) -> In x l.
+Proof.
+  induction l as [|a l IH]; cbn; [tauto|].
+  destruct (Nat.eqb_spec e a); [tauto|]. intros [->|H]; [tauto|]. right. now apply IH.
+Qed.
+
+Lemma remove_nat_In_ne e l x : In x l -> x <> e -> In x (remove_nat e l).
+Proof.
+  induction l as [|a l IH]; cbn; [tauto|].
+  destruct (Nat.eqb_spec e a) as [->|Hn]; intros [->|H] Hx; try tauto; try (now left).
+  right. now apply IH.
+Qed.
+
+Lemma remove_nat_NoDup e l : NoDup l -> NoDup (remove_nat e l) /\ ~ In e (remove_nat e l).
+Proof.
+  induction l as [|a l IH]; cbn; intros H; [split; [constructor|tauto]|].
+  apply NoDup_cons_iff in H as [Ha Hl].
+  destruct (Nat.eqb_spec e a) as [->|Hn]; [tauto|].
+  destruct (IH Hl) as [H1 H2]. split.
+  - constructor; [|exact H1]. intros Hin. apply Ha. eapply remove_nat_In. exact Hin.
+  - intros [E|Hin]; [congruence|tauto].
 Qed.
